@@ -41,6 +41,7 @@ pub enum V {
     SignedBy,
     Urgency,
     Description,
+    CFormat,
     Path,
 }
 
@@ -170,6 +171,13 @@ pub fn value(rng: &mut Rng, v: V) -> String {
             }
             s
         }
+        V::CFormat => match rng.below(6) {
+            0 => "https://www.debian.org/doc/packaging-manuals/copyright-format/1.0/".to_string(),
+            1 => "https://www.debian.org/doc/packaging-manuals/copyright-format/1.0".to_string(),
+            2 => "http://www.debian.org/doc/packaging-manuals/copyright-format/1.0/".to_string(),
+            3 => "http://www.debian.org/doc/packaging-manuals/copyright-format/1.0".to_string(),
+            _ => url(rng),
+        },
         V::Path => rng.pick(&["/build/foo-1.0", "/tmp/x", "relative/dir"]).to_string(),
     }
 }
@@ -388,7 +396,7 @@ pub const REMOVAL: &[F] = &[
 ];
 
 pub const COPYRIGHT_HEADER: &[F] = &[
-    F("Format", true, V::Url),
+    F("Format", true, V::CFormat),
     F("Files-Excluded", false, V::Lines),
     F("Source", false, V::Url),
     F("Upstream-Contact", false, V::Identity),
@@ -401,7 +409,7 @@ pub const DEP3: &[F] = &[
     F("Origin", false, V::Origin),
     F("Forwarded", false, V::Forwarded),
     F("Author", false, V::Identity),
-    F("Reviewed-by", false, V::Identity),
+    F("Reviewed-By", false, V::Identity),
     F("Bug-Debian", false, V::Url),
     F("Last-Update", false, V::DateYmd),
     F("Applied-Upstream", false, V::Applied),
